@@ -841,3 +841,77 @@ def check_direct_pick(ctx):
         ctx.holds('DIRECT-PICK', meth, 'select_by never subscripts the '
                   'content with a caller-supplied value', at=meth.where(),
                   nontrivial=False)
+
+
+# ---------------------------------------------------------- VALUE-ORDER ---
+
+def check_value_order(ctx):
+    """Metadata values are arbitrary hashable objects (strings, numbers,
+    tuples, None) and one key may hold several types: they cannot be
+    ORDERED.  sorted() / min() / max() / list.sort() applied to the values of
+    a key (available_values(k), index[k] and its keys / items) needs a `key=`
+    that maps them to one comparable type (the shipped __str__ uses key=str);
+    without it a TypeError leaves the method - a selection on a wrong value
+    raises instead of returning an empty Browser."""
+    program = ctx.program
+    klass = program.cls(BRW)
+    program.consulted.add(klass.module.relpath)
+    n = 0
+    for meth in [m for k in klass.module.classes.values()
+                 for m in k.methods.values()]:
+        # names bound to the per-key dictionaries of values
+        valued = set()
+        for node in ast.walk(meth.node):
+            if isinstance(node, (ast.For, ast.comprehension)) and \
+                    isinstance(node.iter, ast.Call) and \
+                    'index' in txt(node.iter) and isinstance(
+                        node.target, ast.Tuple) and len(
+                            node.target.elts) == 2:
+                inner, pair = node.iter, node.target
+                while isinstance(inner, ast.Call) and inner.args and \
+                        call_name(inner) in ('enumerate', 'sorted', 'list'):
+                    if call_name(inner) == 'enumerate' and isinstance(
+                            pair, ast.Tuple) and len(pair.elts) == 2:
+                        pair = pair.elts[1]
+                    inner = inner.args[0]
+                if isinstance(inner, ast.Call) and call_name(inner) == \
+                        'items' and txt(receiver(inner)).endswith('index') \
+                        and isinstance(pair, ast.Tuple) and len(
+                            pair.elts) == 2:
+                    for sub in ast.walk(pair.elts[1]):
+                        if isinstance(sub, ast.Name):
+                            valued.add(sub.id)
+
+        def is_values(expr):
+            for sub in ast.walk(expr):
+                if isinstance(sub, ast.Call) and call_name(sub) == \
+                        'available_values':
+                    return True
+                if isinstance(sub, ast.Subscript) and txt(
+                        sub.value).endswith('index'):
+                    return True
+                if isinstance(sub, ast.Name) and sub.id in valued:
+                    return True
+            return False
+        for call in calls_in(meth.node):
+            target = None
+            if isinstance(call.func, ast.Name) and call.func.id in (
+                    'sorted', 'min', 'max') and call.args:
+                target = call.args[0]
+            elif call_name(call) == 'sort' and receiver(call) is not None:
+                target = receiver(call)
+            if target is None or not is_values(target):
+                continue
+            n += 1
+            keyed = any(k.arg == 'key' for k in call.keywords)
+            ctx.decide('VALUE-ORDER', meth,
+                       f'{meth.name}: {txt(call)[:60]} orders metadata '
+                       f'values ' + ('through key=' if keyed else
+                                     'directly'), keyed,
+                       at=meth.where(call),
+                       detail=None if keyed else
+                       'values of different types under one key (1 and '
+                       '"a", a tuple and None) are not comparable: '
+                       'TypeError')
+    ctx.floor('VALUE-ORDER', n, 1, 'orderings of metadata values in Browser '
+              '(__str__ sorts them with key=str)')
